@@ -210,7 +210,7 @@ func (eds *EdsGenerator) buildEndpoints(proxy *model.Proxy,
 	cached := 0
 	regenerated := 0
 
-	for clusterName := range w.ResourceNames {
+	for _, clusterName := range sets.SortedList(w.ResourceNames) {
 		affected := affectedService(proxy, edsUpdatedServices, clusterName)
 		if partialPush && changedDrs.IsEmpty() && changedAuthnNs.IsEmpty() &&
 			!affected {
